@@ -20,24 +20,32 @@ def padAP (ipv6 : Bool) (q : Spec.Pfx) : AddPathPrefix :=
 length octet exceeds 32/128 or the field ends inside an entry -/
 theorem prefixes_eq (ipv6 : Bool) (b : Bytes) :
     decodePrefixes b ipv6 = (Spec.parsePrefixField ipv6 false b).map (·.map (pad ipv6)) := by
-  sorry
+  unfold decodePrefixes Spec.parsePrefixField
+  rw [Lemmas.prefixesLoop_spec ipv6 (b.length + 1) b [] b.length (by omega) (by omega)]
+  simp only [List.nil_append]
+  rfl
 
 /-- same for add-path prefix lists (4-octet path identifier first) -/
 theorem addpath_prefixes_eq (ipv6 : Bool) (b : Bytes) :
     decodeAddPathPrefixes b ipv6 = (Spec.parsePrefixField ipv6 true b).map (·.map (padAP ipv6)) := by
-  sorry
+  unfold decodeAddPathPrefixes Spec.parsePrefixField
+  rw [Lemmas.addPathLoop_spec ipv6 (b.length + 1) b [] b.length (by omega) (by omega)]
+  simp only [List.nil_append]
+  rfl
 
 /-- reference decoder ∘ reference encoder = id: nothing invented, dropped or reordered -/
 theorem pfx_spec_rt (ipv6 addPath : Bool) (ps : List Spec.Pfx)
     (h : ∀ p ∈ ps, Spec.WellFormedPfx (if ipv6 then 128 else 32) addPath p) :
     Spec.parsePrefixField ipv6 addPath (ps.map Spec.pfxWire).flatten = some ps := by
-  sorry
+  unfold Spec.parsePrefixField
+  exact Lemmas.parsePfxs_rt _ (by cases ipv6 <;> simp) addPath ps _ h (Nat.le_refl _)
 
 /-- whatever the reference decoder accepts re-encodes to the same bytes (whole field consumed) -/
 theorem pfx_spec_tr (ipv6 addPath : Bool) (b : Bytes) (ps : List Spec.Pfx)
     (h : Spec.parsePrefixField ipv6 addPath b = some ps) :
     (ps.map Spec.pfxWire).flatten = b ∧ ∀ p ∈ ps, Spec.WellFormedPfx (if ipv6 then 128 else 32) addPath p := by
-  sorry
+  unfold Spec.parsePrefixField at h
+  exact Lemmas.parsePfxs_tr _ addPath _ b ps h
 
 /-- the MP_REACH_NLRI splitter hands the closure exactly AFI, SAFI, the next `nhLen` bytes and
 everything after the reserved octet, for every `nhLen` 0..255, joins the closure's error with the
@@ -49,7 +57,21 @@ theorem mp_reach_split (flags : UInt8) (b : Bytes) (fn : MPReachArgs → Option 
          (some ⟨UInt16.ofNat afi, safi, nh, nlri⟩,
           joinErr (validateFlags flags 14 b true false) (fn ⟨UInt16.ofNat afi, safi, nh, nlri⟩))
        | none => (none, joinErr (validateFlags flags 14 b true false) (some (.notif ⟨3, 5, []⟩)))) := by
-  sorry
+  unfold mpReach Spec.splitMPReach
+  match b with
+  | [] => rfl
+  | [_] => rfl
+  | [_, _] => rfl
+  | [_, _, _] => rfl
+  | [_, _, _, _] => rfl
+  | a1 :: a2 :: safi :: nhLen :: r :: rest =>
+    simp only
+    by_cases h : (r :: rest).length < nhLen.toNat + 1
+    · rw [if_pos h, if_pos h]
+      rfl
+    · rw [if_neg h, if_neg h]
+      rw [Lemmas.slice0 _ _ (by omega), Lemmas.sliceFrom_le _ _ (by omega)]
+      rfl
 
 theorem mp_unreach_split (flags : UInt8) (b : Bytes) (fn : MPUnreachArgs → Option Err) :
     mpUnreach flags b fn =
@@ -58,7 +80,12 @@ theorem mp_unreach_split (flags : UInt8) (b : Bytes) (fn : MPUnreachArgs → Opt
          (some ⟨UInt16.ofNat afi, safi, w⟩,
           joinErr (validateFlags flags 15 b true false) (fn ⟨UInt16.ofNat afi, safi, w⟩))
        | none => (none, joinErr (validateFlags flags 15 b true false) (some (.notif ⟨3, 5, []⟩)))) := by
-  sorry
+  unfold mpUnreach Spec.splitMPUnreach
+  match b with
+  | [] => rfl
+  | [_] => rfl
+  | [_, _] => rfl
+  | a1 :: a2 :: safi :: rest => rfl
 
 /-- IPv6 next hops succeed iff the length is 16 or 32 and then are exactly the bytes; otherwise a
 session-reset-class error (a bare NOTIFICATION, UPDATE Message Error) -/
@@ -66,7 +93,15 @@ theorem mp_ipv6_nexthops (nh : Bytes) :
     (nh.length = 16 → decodeMPReachIPv6NextHops nh = .ok [nh]) ∧
     (nh.length = 32 → decodeMPReachIPv6NextHops nh = .ok [nh.take 16, nh.drop 16]) ∧
     (nh.length ≠ 16 ∧ nh.length ≠ 32 → decodeMPReachIPv6NextHops nh = .error (.notif ⟨3, 0, []⟩)) := by
-  sorry
+  unfold decodeMPReachIPv6NextHops
+  refine ⟨?_, ?_, ?_⟩
+  · intro h
+    simp [h]
+  · intro h
+    simp [h]
+  · intro h
+    rw [if_pos h]
+    rfl
 
 example : Spec.parsePrefixField false false [24, 10, 0, 1, 8, 10] = some [⟨none, 24, [10, 0, 1]⟩, ⟨none, 8, [10]⟩] := by decide
 example : Spec.splitMPReach [0, 2, 1, 1, 9, 0, 7, 7] = some (2, 1, [9], [7, 7]) := by decide
